@@ -33,6 +33,13 @@ Definition eos_span (ucls : N -> N) (src : list ci) (f : span) : span :=
   let off := if t =? 0 then 1 else t in
   (snd f - off, snd f + 1 - off).
 
+(* Span::next_char_utf8: the one char right after the span (used for "expected ... after" diagnostics) *)
+Definition next_char_span (src : list ci) (a : span) : list span :=
+  match find (fun x => fst x =? snd a) src with
+  | Some (o, c) => [(o, o + len_utf8 c)]
+  | None => []
+  end.
+
 (* ---- closure *)
 Lemma boundary_min s a b : boundary s a -> boundary s b -> boundary s (N.min a b).
 Proof. intros Ha Hb. destruct (N.min_spec a b) as [[_ ->]|[_ ->]]; assumption. Qed.
